@@ -613,6 +613,11 @@ func (w *poisonBuffer) Clear() error {
 func (w *poisonBuffer) Layers() []gopacket.LayerType   { return w.layers }
 func (w *poisonBuffer) PushLayer(t gopacket.LayerType) { w.layers = append(w.layers, t) }
 
+// tightSizes are the distances d for the "tight" buffers: a buffer pre-sized to hold all but the last d bytes of the
+// output has to grow in the middle of the serialization - after the payload, after an extension header, inside the last
+// header - which invalidates every slice a serializer obtained earlier and still writes through.
+var tightSizes = []int{1, 8, 16, 24, 32, 40, 47, 60}
+
 func dirtyBuffer() gopacket.SerializeBuffer {
 	b := gopacket.NewSerializeBuffer()
 	p, _ := b.PrependBytes(2048)
@@ -694,6 +699,13 @@ func c07Check(c *vlib.Ctx, r *vlib.Rand, it c06Item, how string) {
 			break
 		}
 		run("pre-sized(0,0)", gopacket.NewSerializeBufferExpectedSize(0, 0), it.fresh())
+		if rs[0].err == nil {
+			for _, d := range tightSizes {
+				if d <= len(rs[0].out) {
+					run(fmt.Sprintf("tight-%d", d), gopacket.NewSerializeBufferExpectedSize(len(rs[0].out)-d, 0), it.fresh())
+				}
+			}
+		}
 		run("dirty", dirtyBuffer(), it.fresh())
 		run("poison-a5", newPoison(0xA5), it.fresh())
 		run("poison-5a", newPoison(0x5A), it.fresh())
@@ -943,6 +955,36 @@ func c07FieldsCheck(c *vlib.Ctx, r *vlib.Rand, it c06Item, how string) {
 			return
 		}
 		rs = append(rs, res{bk, out, err})
+	}
+	if rs[0].err == nil {
+		for _, d := range tightSizes {
+			if d > len(rs[0].out) {
+				break
+			}
+			buf := gopacket.NewSerializeBufferExpectedSize(len(rs[0].out)-d, 0)
+			l := mk()
+			if ns, ok := l.(netSetter); ok && it.nl != nil {
+				ns.SetNetworkLayerForChecksum(it.nl)
+			}
+			var out []byte
+			var err error
+			pi := vlib.Guard(func() {
+				err = gopacket.SerializeLayers(buf, o, l, gopacket.Payload(payload))
+				if err == nil {
+					out = append([]byte{}, buf.Bytes()...)
+				}
+			})
+			c.Evals(1)
+			if pi != nil {
+				c.Violation("constructed:"+pi.Key, fmt.Sprintf("serializing a %s whose public fields were changed (%s; %s) into a buffer that has to grow %d bytes before the end panicked at %s:%d: %s", it.t, strings.Join(changed, "; "), soString(o), d, pi.File, pi.Line, pi.Value), det())
+				return
+			}
+			if err != nil || !bytes.Equal(out, rs[0].out) {
+				c.Violation("constructed:output-depends-on-buffer-growth:"+tk, fmt.Sprintf("%s with changed fields (%s; %s): a buffer pre-sized %d bytes short of the output gives err=%v and bytes that differ from a fresh buffer at %d of %d", it.t, strings.Join(changed, "; "), soString(o), d, err, firstDiff(out, rs[0].out), len(rs[0].out)), det())
+				return
+			}
+		}
+		c.Count("tight_buffer_serializations", len(tightSizes))
 	}
 	for _, x := range rs[1:] {
 		if (x.err == nil) != (rs[0].err == nil) {
